@@ -70,6 +70,17 @@ pub fn honest_inputs(rng: &mut impl Rng, depth: usize, dummy: bool, boundary: bo
     let mut positions: Vec<u8> = vec![];
     for _ in 0..depth {
         let mut sibs = [d4_bytes(&rand_d4(rng)), d4_bytes(&rand_d4(rng)), d4_bytes(&rand_d4(rng))];
+        // sparse trees: missing children are the empty hash, so honest paths carry [0,0,x] / [0,0,0] / duplicate siblings
+        match rng.gen_range(0..8) {
+            0 => sibs = [[0u8; 32]; 3],
+            1 => {
+                sibs[0] = [0u8; 32];
+                sibs[1] = [0u8; 32];
+            }
+            2 => sibs[2] = [0u8; 32],
+            3 => sibs[1] = sibs[0],
+            _ => {}
+        }
         sibs.sort();
         let curb = d4_bytes(&cur);
         let pos = sibs.iter().filter(|s| **s < curb).count();
